@@ -68,3 +68,35 @@ contract(
              "dict_del(old(self._refs), self._refs, name) if result else dict_same(old(self._refs), self._refs)"],
     options=DOPT,
 )
+
+
+# ---- reftable backend: the conditional update contract (None = unconditionally, ZERO_SHA = must not exist) ------------------
+# read_loose_ref and _write_ref_update are abstract: the first yields the ghost current value `cur` or raises KeyError exactly
+# when the ghost flag `missing` is set, the second records what was written in ghost fields.
+RT = "dulwich/reftable.py"
+class_spec(file="<abstract>", cls="ReftableAbs", fields={"written": "bool", "w_type": "int", "w_value": "bytes", "missing": "bool", "cur": "bytes"})
+contract(prop=["C16"], file="<abstract>", func="ReftableAbs.read_loose_ref@abs", trusted=True, params={"self": "obj:ReftableAbs", "name": "opaque"},
+         returns="bytes", raises={"KeyError": ["self.missing"]}, ensures=["not self.missing", "len(result) == len(self.cur) and all(result[k] == self.cur[k] for k in range(0, len(result)))"])
+contract(prop=["C16"], file="<abstract>", func="ReftableAbs._write_ref_update@ghost", trusted=True,
+         params={"self": "obj:ReftableAbs", "name": "opaque", "value_type": "int", "value": "bytes"}, returns="None", raises={ANY: None},
+         modifies=["self.written", "self.w_type", "self.w_value"],
+         ensures=["self.written", "self.w_type == value_type", "len(self.w_value) == len(value) and all(self.w_value[k] == value[k] for k in range(0, len(value)))"])
+_RT_CC = {"ReftableAbs.read_loose_ref": ("<abstract>", "ReftableAbs.read_loose_ref@abs"), "ReftableAbs._write_ref_update": ("<abstract>", "ReftableAbs._write_ref_update@ghost")}
+_SAME = "(len(old_ref) == len(self.cur) and all(old_ref[k] == self.cur[k] for k in range(0, len(old_ref))))"
+_ZERO = "(len(old_ref) == 40 and all(old_ref[k] == 48 for k in range(0, 40)))"
+_COND = f"(old_ref is None or ({_ZERO} if self.missing else {_SAME}))"
+contract(
+    prop=["C16"], file=RT, func="ReftableRefsContainer.set_if_equals",
+    params={"self": "obj:ReftableAbs", "name": "bytes", "old_ref": "bytes|None", "new_ref": "bytes", "committer": "opaque", "timestamp": "opaque", "timezone": "opaque", "message": "opaque"},
+    returns="bool", raises={ANY: None}, requires=["not self.written"], modifies=["self.written", "self.w_type", "self.w_value"],
+    ensures=[f"result == {_COND}", "self.written == result",
+             "(not result) or (self.w_type == 1 and len(self.w_value) == len(new_ref) and all(self.w_value[k] == new_ref[k] for k in range(0, len(new_ref))))"],
+    options={"callee_contracts": _RT_CC},
+)
+contract(
+    prop=["C16"], file=RT, func="ReftableRefsContainer.remove_if_equals",
+    params={"self": "obj:ReftableAbs", "name": "bytes", "old_ref": "bytes|None", "committer": "opaque", "timestamp": "opaque", "timezone": "opaque", "message": "opaque"},
+    returns="bool", raises={ANY: None}, requires=["not self.written"], modifies=["self.written", "self.w_type", "self.w_value"],
+    ensures=[f"result == {_COND}", "self.written == result", "(not result) or self.w_type == 0"],
+    options={"callee_contracts": _RT_CC},
+)
